@@ -20,15 +20,16 @@ RANGES = {"tiny": (-128, 127), "short": (-32768, 32767), "int": (-2**31, 2**31 -
 
 class Opts:
     def __init__(self, **kw):
-        self.avoid_short_circuit = True     # C03 #5: && || evaluate both operands
+        self.avoid_short_circuit = False    # C03 #5 (fixed by a51b767): && || evaluated both operands
         self.avoid_ternary_nonint = False   # C01 #39 (fixed by 990fbc8): ?: yielded 0 when the chosen branch was a long/short/tiny variable
         self.avoid_elem_rhs = True          # C01 #40/#41: a[i] = (c ? x : y) stores 0; a[i] = f() calls f twice
         self.avoid_elem_compound = True     # C01 #1: a[e] op= v only for literal / variable index on 1-D arrays
-        self.avoid_incdec_limit = True      # C04 #7: ++/-- are not range checked
-        self.avoid_multidim_narrow = True   # C04: stores into multi-dimensional arrays are not range checked
+        self.avoid_incdec_limit = False     # C04 #7 (fixed by 892a98c/1b2d709): ++/-- were not range checked
+        self.avoid_multidim_narrow = False  # C04 (fixed by a6c628c): stores into multi-dimensional arrays were not range checked
         self.avoid_print_retry = True       # C01/C03: println re-evaluates an argument whose evaluation failed
-        self.avoid_multi_index_order = True # C03: indices of a multi-dimensional access are evaluated right to left
+        self.avoid_multi_index_order = False # C03 (store side fixed by 2967bbb): indices of a multi-dimensional access were evaluated right to left
         self.avoid_ternary_multidim = False # C01/C10: a ?: branch that mentions a multi-dimensional element crashes the interpreter (SIGSEGV)
+        self.avoid_assign_top_ternary = True # C01: `x = c ? a : ~(p == q);` stores the bool-normalised branch value (1 instead of -1)
         self.avoid_return_elem = True       # C04/C10: `return m[i][j];` (bare multi-dim element) loses the range check / crashes the caller
         self.max_stmts = 8
         self.max_depth = 3
@@ -260,6 +261,8 @@ class Gen:
         """an expression whose value is stored or returned as a whole: a bare multi-dimensional element
         loses the range check of the store (finding C04-bare-multidim-element)"""
         e = self.expr(env, d, calls)
+        if self.o.avoid_assign_top_ternary and e.startswith("(cond"):   # finding C01-ternary-assign-bool-branch
+            e = "(bin + %s 0)" % e
         if self.o.avoid_return_elem and e.startswith("(idx"):
             e = "(bin + %s 0)" % e
         return e
